@@ -80,15 +80,10 @@ func vxNewEnv(chunk uint64) *vxEnv {
 	} else {
 		e.chain = blockchain.New(memory.New(), &networks.Sepolia)
 	}
-	e.c = &Client{
-		provider:         p,
-		l2Chain:          e.chain,
-		logger:           log.NewNopZapLogger(),
-		network:          &networks.Sepolia,
-		catchUpChunkSize: chunk,
-		nonFinalisedLogs: make(map[uint64]*StateUpdate),
-		listener:         SelectiveListener{},
-	}
+	// the real constructor (whatever it initialises is initialised); the engine's stand-in chain has no
+	// network, so that one field is set afterwards
+	e.c = NewClient(p, e.chain, log.NewNopZapLogger(), WithCatchUpChunkSize(chunk))
+	e.c.network = &networks.Sepolia
 	return e
 }
 
